@@ -400,6 +400,14 @@ class Check:
         self.tlc_runs: List[Dict[str, Any]] = []
         self.known = load_known(prop)
         self.skipped = 0
+        # replay files of earlier runs of this property are stale
+        if os.path.isdir(REPLAYS):
+            for fn in os.listdir(REPLAYS):
+                if fn.startswith(prop + "-"):
+                    try:
+                        os.remove(os.path.join(REPLAYS, fn))
+                    except OSError:
+                        pass
 
     # -- TLC accounting
     def add_tlc(self, what: str, res: TlcResult) -> None:
